@@ -9,6 +9,7 @@ import (
 	"fmt"
 	mocker "github.com/tencent/goom"
 	"os"
+	"path/filepath"
 	"runtime"
 	"sort"
 	"strings"
@@ -530,6 +531,37 @@ func TestC10VarFirst(t *testing.T) {
 	rep.Stat("var_first_functions_exact:"+mode, int64(exact))
 	rep.Stat("var_first_variables_exact:"+mode, int64(vexact))
 	rep.Class(fmt.Sprintf("%s/variable-first/exact=%v/error=%v", mode, exact+vexact > 0, errs+verrs > 0))
+}
+
+// TestC10Argv0: the program has rewritten os.Args before the first lookup (command-line tools under test do: os.Args =
+// []string{"go", "version"}); the name there is another Go program on PATH, a program that does not exist, or a relative
+// path that no longer resolves after a chdir. The symbol table that answers is still the running executable's.
+func TestC10Argv0(t *testing.T) {
+	rep := vmon.NewReport("C10")
+	defer rep.Write()
+	mode := os.Getenv("VERIF_C10_MODE")
+	kind := os.Getenv("VERIF_C10_ARGV0")
+	switch kind {
+	case "other-go-program":
+		os.Args = []string{"go", "version"}
+	case "missing-program":
+		os.Args = []string{"no-such-program-c10", "-v"}
+	case "relative-after-chdir":
+		if exe, err := os.Executable(); err == nil {
+			os.Chdir(filepath.Dir(exe))
+			os.Args = []string{"./" + filepath.Base(exe)}
+			os.Chdir("/")
+		}
+	}
+	self := "github.com/tencent/goom/zzverif/c10.TestC10Argv0"
+	what := "in a process whose os.Args[0] names " + kind
+	exact, errs, vexact, verrs := sweepLater(rep, mode, what, self, vmon.FuncCodePtr(TestC10Argv0))
+	if errs > 0 || verrs > 0 {
+		rep.Violate("C10/present-function-not-found", fmt.Sprintf("[%s] %s, %d function and %d variable lookups of present symbols failed", mode, what, errs, verrs), map[string]interface{}{"argv0": kind})
+	}
+	rep.Stat("argv0_functions_exact:"+kind, int64(exact))
+	rep.Stat("argv0_variables_exact:"+kind, int64(vexact))
+	rep.Class(fmt.Sprintf("%s/argv0=%s/exact=%v/error=%v", mode, kind, exact+vexact > 0, errs+verrs > 0))
 }
 
 // a type named exactly like the package, with a method named like a package-level function
